@@ -62,6 +62,25 @@ def mixed_bracket_use(desc):
     return bool(marked & unmarked)
 
 
+def implicit_output_candidates(ins):
+    """Documented rule, own computation: number of DISTINCT input expressions whose axis names (every named axis,
+    every number other than 1 as an axis of its own) include those of all other inputs."""
+    from vlib.desc import show_expr
+
+    def names(e):
+        out = set()
+        for it in c02.walk(e):
+            if isinstance(it, Ax):
+                out.add(it.name)
+            elif isinstance(it, Num) and it.size != 1:
+                out.add(("num", it.uid))
+        return out
+
+    sets = [names(e) for e in ins]
+    cands = {show_expr(e) for i, e in enumerate(ins) if all(t <= sets[i] for j, t in enumerate(sets) if j != i)}
+    return len(cands)
+
+
 def corruptions(case, rng):
     """Yield (edit name, desc, shapes, kwargs, n_tensors_delta, adjudicable)."""
     desc = case["desc"]
@@ -126,6 +145,21 @@ def corruptions(case, rng):
     if inside_names:
         n0 = rng.choice(inside_names)
         out.append(("bracketed-axis-also-first", n0 + " " + desc, shapes, kw, False))
+    # element-wise shorthand without '->': the output is the input that contains all axes IF THAT CHOICE IS UNIQUE
+    if case["family"] == "elementwise":
+        from vlib.desc import show_expr
+
+        ins = list(case["ins"])
+        if "->" in desc:
+            verdict = implicit_output_candidates(ins)
+            out.append(("output-removed", ", ".join(show_expr(e) for e in ins), shapes, kw, "ambiguous" if verdict != 1 else False))
+        cand = [e for e in ins if len(e) >= 2 and tuple(reversed(e)) != tuple(e) and not any(isinstance(x, (Ell, Cat)) for x in c02.walk(e))]
+        if cand and len(ins) <= 2 and case["op"] != "where":
+            e = rng.choice(cand)
+            e2 = tuple(reversed(e))
+            ins2 = [e, e2]
+            if implicit_output_candidates(ins2) >= 2:
+                out.append(("ambiguous-implicit-output", ", ".join(show_expr(x) for x in ins2), [tuple(shape(expand(x))) for x in ins2], kw, "ambiguous"))
     if "->" in desc:
         out.append(("arrow-doubled", desc.replace("->", "-> ->", 1), shapes, kw, False))
     if "(" in desc:
@@ -190,6 +224,8 @@ def work(item):
             ill = infeasible(case, shapes, kw, timeout_ms)
         elif adjud == "count":
             ill = True
+        elif adjud == "ambiguous":
+            ill = True
         elif mixed_bracket_use(desc):
             ill, adjud = True, "bracket-rule"
         r["ill_formed"] = ill
@@ -199,7 +235,7 @@ def work(item):
         elif r["outcome"] not in ("returned",) and r.get("dispatch_before_exception", 0) > 0 and ill is not False:
             st, r["kind"] = "violation?", "backend-computation-before-rejection"
         elif ill is True and r["outcome"] == "returned":
-            st, r["kind"] = "violation?", "accepted-but-no-assignment-exists" if adjud is True else ("accepted-although-axis-is-bracketed-and-unbracketed" if adjud == "bracket-rule" else "accepted-with-wrong-argument-count")
+            st, r["kind"] = "violation?", "accepted-but-no-assignment-exists" if adjud is True else ("accepted-although-axis-is-bracketed-and-unbracketed" if adjud == "bracket-rule" else "accepted-although-implicit-output-is-not-unique" if adjud == "ambiguous" else "accepted-with-wrong-argument-count")
             if adjud is True:
                 m = {"exprs": tuple(case["ins"]) + tuple(case["outs"]), "shapes": list(shapes) + [None] * len(case["outs"]), "kwargs": kw}
                 r["cse_relaxation_feasible"] = c02.relaxation_feasible(m, timeout_ms)
@@ -255,6 +291,9 @@ elif kind == "accepted-with-wrong-argument-count":
 elif kind == "accepted-although-axis-is-bracketed-and-unbracketed":
     if out[0] == "returned":
         print("REPRODUCED: einx computed a result (shapes %r) for a description that uses an axis name both inside and outside of brackets" % (out[1],)); sys.exit(1)
+elif kind == "accepted-although-implicit-output-is-not-unique":
+    if out[0] == "returned":
+        print("REPRODUCED: einx computed a result (shapes %r) for an element-wise call without '->' in which no input, or more than one, contains all axes" % (out[1],)); sys.exit(1)
 elif kind == "accepted-but-no-assignment-exists":
     if out[0] == "returned":
         print("REPRODUCED: einx computed a result (shapes %r) although z3 shows that no assignment of positive integers satisfies the description for these shapes/sizes" % (out[1],)); sys.exit(1)
